@@ -18,9 +18,13 @@ ASSUMPTIONS = [
 
 
 def gen(rng, tier, no, wide=False):
-    case = G.gen_case(rng)
+    force = {"memcpy_rate": rng.choice([0.2, 0.4, 0.5])}
+    if rng.random() < 0.5:
+        force.update({"nranks": rng.choice([2, 3]), "corr_start": rng.choice([1, 100])})   # ids collide across ranks
+    case = G.gen_case(rng, **force)
+    # the ranks in the order the caller lists them (not necessarily ascending)
     case["params"] = {"include_memory": rng.random() < 0.5,
-                      "ranks": sorted(rng.sample(sorted(case["ranks"]), rng.randint(1, len(case["ranks"]))))}
+                      "ranks": rng.sample(sorted(case["ranks"]), rng.randint(1, len(case["ranks"])))}
     return case
 
 
